@@ -148,8 +148,12 @@ def stage_cfgs(pid, tier, rng):
                 # a predicate that fails on some elements: as in pipe, such an element is dropped / goes right, and the work goes on
                 for mode in ("lift", "try"):
                     for par in (1, 2, 3):
+                        # (failing elements after accepted ones, after rejected ones and first of all: whatever a worker kept from its last element)
                         rnd.append(C(kind=kind, forked=True, par=par, cap=1, mode=mode, pred=[1, 2, 3, 5, 6], fail=[1, 2, 3, 5][: par + 1], inputs=[[1, 2, 3, 4, 5, 6, 7]], gate=par == 2))
+                        rnd.append(C(kind=kind, forked=True, par=par, cap=par - 1, mode=mode, pred=[1, 2, 3, 5, 6], fail=[[3, 6], [2, 3, 6], sorted(rng.sample(range(1, 8), 3))][par - 1], inputs=[[1, 2, 3, 4, 5, 6, 7]], gate=par == 3))
                 mc.append(C(kind=kind, forked=True, par=2, cap=0, mode="try", pred=[1, 2, 3], fail=[1, 2], inputs=[[1, 2, 3]], gate=False))
+                mc.append(C(kind=kind, forked=True, par=1, cap=1, mode="try", pred=[1, 2, 3], fail=[2, 3], inputs=[[1, 2, 3]], gate=False))
+                gen.append(C(kind=kind, forked=True, par=1, cap=1, mode="try", pred=[1, 2, 3], fail=[2, 3], inputs=[[1, 2, 3]], gate=False))
                 rnd.append(C(kind="TakeWhile", forked=True, cap=1, mode="try", pred=[1, 2, 3, 4], fail=[3], inputs=[[1, 2, 3, 4, 5]]))
             if kind == "ForEach":
                 # ForEach ignores what its function returns: with a failing function every element is still visited once
@@ -325,6 +329,8 @@ def check(run, replay=None):
     rng = random.Random(run.seed * 7919 + int(pid[1:]))
     run.mc_violated = None
     pipe_run.EXERCISED.clear()
+    import trace_i
+    del trace_i.INCONCLUSIVE[:]
     del pipe_run.HUNG[:]
     binp = pipe_run.build()
     with Scratch() as d:
@@ -431,7 +437,9 @@ def check(run, replay=None):
         for model, (sample, acc, rej, bres) in bound.items():
             for r in bres:
                 run.add_mc(model + "TraceI", r, {"traces": "batch"})
-            run.notes.setdefault("trace_I", {})[model] = {"validated": len(sample), "accepted": acc, "rejected": len(rej)}
+            import trace_i
+            inc = sum(n for m, n in trace_i.INCONCLUSIVE if m == model)
+            run.notes.setdefault("trace_I", {})[model] = {"validated": len(sample) - inc, "accepted": acc, "rejected": len(rej), "inconclusive_timeout": inc}
             for i, hw in rej[:10]:
                 t = sample[i]
                 run.drift.append("trace=%s/%s at=window %d (%s): the model %s cannot explain %s with snapshot %s" % (
@@ -448,6 +456,19 @@ def check(run, replay=None):
             run.sample({"cfg": {k: v for k, v in t["cfg"].items() if v not in (0, [], False, "")}, "origin": t.get("origin"),
                         "commands": [cmd_str(w["cmd"]) for w in t["wins"][1:]][:30]})
         if pipe_run.HUNG:
+            # second opinion outside the bubble, on the real scheduler and the real clock: the configuration of (two of) the
+            # schedules that never came to rest, with consumers that keep receiving; at rest = nothing observable for 30 s
+            ft = []
+            for hs in [h for h in pipe_run.HUNG if h["cfg"]["kind"] != "Pipeline"][:2]:
+                for variant in ("drain", "cancel"):
+                    ft.append(pipe_run.run_free(binp, hs, variant, d, tag="free%d" % len(ft)))
+            if ft:
+                fv, fres = pipe_run.judge(ft, d, tag="jf")
+                for r in fres:
+                    run.add_mc("PipeTraceP", r, {"traces": "free runs"})
+                run.traces += len(ft)
+                report(run, pid, None, ft, fv)
+                run.notes["free_runs_of_hung_schedules"] = len(ft)
             run.notes["hung_schedules"] = len(pipe_run.HUNG)
             log("phase: %d schedule(s) never came to rest (library goroutine spinning?): e.g. %s" % (len(pipe_run.HUNG), json.dumps(pipe_run.HUNG[0]["cfg"])[:300]))
             if not run.violations and not run.known_hits:
@@ -786,9 +807,9 @@ def special_scheds(pid, th, rng):
                         cmds = [S() for _ in range(n)] + [{"c": "close", "i": 0}] + [rel((vals * 2)[k]) for k in order] + [rel(-1)] * (2 * n) + [R("res")]
                         out.append({"cfg": cfg, "cmds": cmds, "epilogue": "drain", "origin": "held-combine"})
     if pid in ("C07", "C09"):
-        # more failing elements in one process than any plausible fixed budget (1100), under Try: every one reported, the rest delivered
+        # more failing elements in one stage than any plausible fixed budget (2250 of 2500), under Try: every one reported, the rest delivered
         for kind in ("Map", "FMap"):
-            n = 1100
+            n = 2500
             vals = list(range(1, n + 1))
             cmds = [{"c": "recvall", "o": "out", "d": n}, {"c": "recvall", "o": "exx", "d": n}] + [B(*([S()] * 50)) for _ in range(n // 50)] + [{"c": "close", "i": 0}]
             out.append({"cfg": C(kind=kind, forked=pid == "C09", par=3, cap=50, mode="try", inputs=[vals], fail=[v for v in vals if v % 10 != 0]), "cmds": cmds, "epilogue": "drain", "origin": "many-failures"})
@@ -838,8 +859,9 @@ def special_scheds(pid, th, rng):
 def report(run, pid, scheds, traces, viols):
     mine = set(PREDS[pid])
     per_trace = collections.OrderedDict()
+    timed = {"EmitPaced", "EmitKeepUp", "ThrottlePaced", "ThrottleWindow"}     # not judged on the real clock (free runs): jitter
     for ti, w, preds in viols:
-        ps = [p for p in preds if p in mine]
+        ps = [p for p in preds if p in mine and not (traces[ti].get("free") and p in timed)]
         if ps:
             per_trace.setdefault(ti, (w, ps))
     for ti, (w, ps) in per_trace.items():
@@ -848,10 +870,16 @@ def report(run, pid, scheds, traces, viols):
         sig = {"stage": ("fork." if c["forked"] else "pipe.") + c["kind"], "pred": ps[0], "mode": c["mode"], "n": c["n"] if c["kind"] == "Take" else None,
                "cancelled": any(x["cmd"]["c"] == "cancel" and not x["skipped"] for x in t["wins"][:w]),
                "sender_closed": any(x["cmd"]["c"] == "close" and not x["skipped"] for x in t["wins"][:w]) or bool(t.get("crash") and any(cm["c"] == "close" for cm in t.get("sched", {}).get("cmds", [])))}
-        what = "%s %s: %s fail%s after %s" % (sig["stage"], {k: v for k, v in c.items() if v not in (0, [], False, "", 1) and k not in ("kind",)}, ps,
+        short = lambda v: v if len(str(v)) < 240 else str(v)[:240] + "...(%d characters)" % len(str(v))
+        what = "%s %s: %s fail%s after %s" % (sig["stage"], {k: short(v) for k, v in c.items() if v not in (0, [], False, "", 1) and k not in ("kind",)}, ps,
                                                " (library goroutine panicked: %s)" % t.get("crash_msg", "")[:80].replace("\n", " ") if t.get("crash") else "",
+                                               ("the whole input offered and closed" if t.get("free") == "drain" else "part of the input offered, then cancel") if t.get("free") else
                                                [cmd_str(x["cmd"]) for x in t["wins"][1:w]] if t["wins"] else [cmd_str(x) for x in t.get("sched", {}).get("cmds", [])])
         cmds = [x["cmd"] for x in t["wins"][1:] if not x["skipped"]] if t["wins"] else t.get("sched", {}).get("cmds", [])
+        if t.get("free"):
+            what = "(outside the bubble, real clock, consumers keep receiving, nothing observable for 30 s) " + what
+            run.violation(dict(sig, free=t["free"]), what, {"sched": {"cfg": c, "cmds": [], "epilogue": "none", "origin": "replay"}, "free": t["free"], "preds": ps, "window": w})
+            continue
         run.violation(sig, what, {"sched": {"cfg": c, "cmds": cmds, "epilogue": "none", "origin": "replay"}, "preds": ps, "window": w})
     run.notes["traces_with_failing_predicate"] = len(per_trace)
 
@@ -878,7 +906,10 @@ def race_pass(run, scheds, d, rng, th):
 def do_replay(run, binp, path, d):
     rec = json.load(open(path))
     s = rec["payload"]["sched"]
-    traces = pipe_run.run_schedules(binp, [s], d, tag="rp")
+    if rec["payload"].get("free"):
+        traces = [pipe_run.run_free(binp, s, rec["payload"]["free"], d)]
+    else:
+        traces = pipe_run.run_schedules(binp, [s], d, tag="rp")
     viols, results = pipe_run.judge(traces, d)
     run.traces += 1
     for r in results:
